@@ -119,15 +119,10 @@ Definition deser : ustring := u "::serde::Deserialize".
 Definition req_simple_enum : list string := ["Copy"; "PartialOrd"; "Ord"; "PartialEq"; "Eq"; "Hash"].
 Definition req_string_newtype : list string := ["PartialOrd"; "Ord"; "PartialEq"; "Eq"; "Hash"].
 
-(* the shape the model was written against; if one of these changes the model has to be re-read *)
-Lemma table_shape_pinned :
-  simple_enum_cond = "variants . iter () . all (| variant | matches ! (variant . details , VariantDetails :: Simple))"%string /\
-  newtype_inner_def = "type_space . id_to_entry . get (type_id) . unwrap ()"%string /\
-  is_str_def = "matches ! (inner_type . details , TypeEntryDetails :: String)"%string /\
-  struct_derive_ops = [] /\
-  assembly_ops = ["let derive_set . clone ()"; "extend extra_derives"; "extend type_derives"; "into_iter"]%string.
-Proof. repeat split; reflexivity. Qed.
-
+(* The condition / initialiser TEXTS the model was written against (simple_enum_cond,
+   is_str_def, newtype_inner_def, struct_derive_ops, assembly_ops) are pinned by the check
+   as separate obligations (py/props/c19.py: shape_pins), not here: a changed text must
+   not take the theorems over the regenerated literals down with it. *)
 Lemma items_pub : enum_item_pub = true /\ struct_item_pub = true /\ newtype_item_pub = true.
 Proof. repeat split; vm_compute; reflexivity. Qed.
 
